@@ -53,6 +53,9 @@ type c02Vec struct {
 	RR  string   `json:"rr"`
 	Pen bool     `json:"pen"`
 	Den bool     `json:"den"`
+	// Paused: the profile's parental protection is switched on with every feature of it, and paused right now
+	// by its weekly schedule.  For the specification that is a profile whose parental features are off.
+	Paused bool `json:"paused"`
 }
 
 var (
@@ -579,6 +582,9 @@ func (w *c02World) concretise(rng *rand.Rand, c *c02Case) {
 	}
 	parentalUsed := v.S == "block" || st["adult"] != "off" || st["ssgen"] != "off" || st["ssyt"] != "off"
 	k.Flags.Parental = parentalUsed || rng.Intn(2) == 0
+	if v.Paused {
+		k.Flags.Parental = false
+	}
 	sbUsed := st["dangerous"] != "off" || st["newreg"] != "off"
 	k.Flags.SafeBr = sbUsed || rng.Intn(2) == 0
 	flag := func(n string, groupOn bool) bool {
@@ -592,9 +598,12 @@ func (w *c02World) concretise(rng *rand.Rand, c *c02Case) {
 	k.Flags.Adult = flag("adult", k.Flags.Parental)
 	k.Flags.SSGen = flag("ssgen", k.Flags.Parental)
 	k.Flags.SSYT = flag("ssyt", k.Flags.Parental)
+	if v.Paused {
+		k.Flags.Adult, k.Flags.SSGen, k.Flags.SSYT = true, true, true
+	}
 	k.Flags.Dangerous = flag("dangerous", k.Flags.SafeBr)
 	k.Flags.NewReg = flag("newreg", k.Flags.SafeBr)
-	if !k.Flags.Parental && v.S == "none" && rng.Intn(2) == 0 {
+	if !k.Flags.Parental && v.S == "none" && (v.Paused || rng.Intn(2) == 0) {
 		id := w.svcIDs[sperm[1]]
 		w.svcs[id] = append(w.svcs[id], "||"+k.Host+"^")
 		k.Svcs = append(k.Svcs, id)
@@ -605,7 +614,7 @@ func (w *c02World) concretise(rng *rand.Rand, c *c02Case) {
 	// TXT queries are kept away from listed hosts (the safety filters only
 	// look at A, AAAA and HTTPS queries, which the property does not claim).
 	for _, n := range c02Safety {
-		listed := st[n] == "match" || (st[n] == "off" && c.QT != "TXT" && rng.Intn(2) == 0)
+		listed := st[n] == "match" || (st[n] == "off" && c.QT != "TXT" && (rng.Intn(2) == 0 || (v.Paused && n != "dangerous" && n != "newreg")))
 		if !listed {
 			continue
 		}
@@ -666,17 +675,40 @@ func (w *c02World) concretise(rng *rand.Rand, c *c02Case) {
 		}
 		svcs = append(svcs, filter.BlockedServiceID(id))
 	}
+	parentalOn, pause := c02Pause(c.ID, k.Flags.Parental, v.Paused)
 	c.Conf = &filter.ConfigClient{
 		Custom: &filter.ConfigCustom{ID: fmt.Sprintf("c02prof%d", c.ID), UpdateTime: time.Unix(1700000000+int64(c.ID), 0),
 			Rules: rules, Enabled: k.Flags.Custom},
-		Parental: &filter.ConfigParental{BlockedServices: svcs, Enabled: k.Flags.Parental,
+		Parental: &filter.ConfigParental{BlockedServices: svcs, Enabled: parentalOn,
 			AdultBlockingEnabled: k.Flags.Adult, SafeSearchGeneralEnabled: k.Flags.SSGen,
-			SafeSearchYouTubeEnabled: k.Flags.SSYT},
+			SafeSearchYouTubeEnabled: k.Flags.SSYT, PauseSchedule: pause},
 		RuleList: &filter.ConfigRuleList{IDs: ids, Enabled: k.Flags.RuleList},
 		SafeBrowsing: &filter.ConfigSafeBrowsing{Enabled: k.Flags.SafeBr, DangerousDomainsEnabled: k.Flags.Dangerous,
 			NewlyRegisteredDomainsEnabled: k.Flags.NewReg},
 	}
 	w.cases = append(w.cases, c)
+}
+
+// c02Pause concretises "parental protection in effect": a profile whose
+// protection is not in effect has it switched off, or has it switched on and
+// PAUSED right now by its weekly schedule (in which case the flag is set);
+// one whose protection is in effect may have a schedule that does not cover
+// the present moment.  Everything that is not parental protection (safe
+// browsing, newly registered domains, rule lists, custom rules) is unaffected.
+func c02Pause(id int, inEffect, paused bool) (enabled bool, s *filter.ConfigSchedule) {
+	now := time.Now().UTC()
+	allDay := &filter.DayInterval{Start: 0, End: filter.MaxDayIntervalEndMinutes}
+	tz := &agdtime.Location{Location: *time.UTC}
+	switch {
+	case !inEffect && (paused || id%3 == 1):
+		return true, &filter.ConfigSchedule{Week: &filter.WeeklySchedule{allDay, allDay, allDay, allDay, allDay, allDay, allDay}, TimeZone: tz}
+	case inEffect && id%3 == 2:
+		// a pause on a day that is neither today nor one of its neighbours
+		w := &filter.WeeklySchedule{}
+		w[(int(now.Weekday())+3)%7] = allDay
+		return true, &filter.ConfigSchedule{Week: w, TimeZone: tz}
+	}
+	return inEffect, nil
 }
 
 // ---------------------------------------------------------------- building
@@ -1072,6 +1104,17 @@ func c02SafetyVectors(rng *rand.Rand, all bool) (vs []c02Vec) {
 		for _, cx := range use {
 			vs = append(vs, c02Vec{C: cx[0], R1: cx[1], R2: cx[2], S: cx[3], SF: append([]string{}, sf...),
 				RC: "none", RR: "none", Pen: true, Den: true})
+		}
+	}
+	// parental protection paused by the schedule: everything parental is off, whatever is switched on and
+	// listed; dangerous and newly registered domains in all their states
+	for n := 0; n < 9; n++ {
+		for _, cx := range ctxs {
+			if cx[3] == "block" {
+				continue
+			}
+			vs = append(vs, c02Vec{C: cx[0], R1: cx[1], R2: cx[2], S: "none", SF: []string{states[n%3], "off", "off", "off", states[n/3]},
+				RC: "none", RR: "none", Pen: true, Den: true, Paused: true})
 		}
 	}
 	return vs
